@@ -512,7 +512,14 @@ impl Serialize for Extensions {
             ExtensionsVariantV1::Causal(extensions) => {
                 seq.serialize_element(&extensions.log_id)?;
                 seq.serialize_element(&extensions.timestamp)?;
-                seq.serialize_element(&extensions.previous)?;
+
+                // The iteration order of a `HashSet` depends on the randomly seeded hasher of
+                // that particular instance. Encode the hashes in sorted order, otherwise equal
+                // extensions encode to different bytes (and the header to a different operation
+                // id and signature payload) every time they have been decoded.
+                let mut previous: Vec<&Hash> = extensions.previous.iter().collect();
+                previous.sort();
+                seq.serialize_element(&previous)?;
             }
         }
 
